@@ -155,10 +155,27 @@ def check_get_bases(idx: Index, rep: Report) -> None:
         raise AnalysisError(f"only {n} get_bases overrides found")
     # AnyOf: abstract alternative must be a BaseAttr of a non-final class and overlap is rejected
     f = idx.func(CONS, "AnyOf.__init__")
-    t = re.sub(r"\s+", " ", unparse(f.node))
-    need = ["if abstr_constr is not None: raise PyRDLError", "not isinstance(c, BaseAttr) or is_runtime_final(c.attr)", "not b.isdisjoint(based_constrs.keys())", "issubclass(base, abstr_constr.attr)"]
-    miss = [x for x in need if x not in t]
+    from ..astutil import norm_facts, text_facts
+
+    raises = [n for n in walk_local(f.node) if isinstance(n, ast.Raise)]
+    guards = [norm_facts(text_facts(f.node, n)) for n in raises]
+    NEED = {
+        "second abstract alternative rejected": (r"\w+ is None", False),
+        "abstract alternative is a BaseAttr of a non-final class": (r"not isinstance\(\w+, BaseAttr\) or is_runtime_final\(\w+\.attr\)|is_runtime_final\(\w+\.attr\) or not isinstance\(\w+, BaseAttr\)", True),
+        "exact bases of two alternatives do not overlap": (r"\w+\.isdisjoint\(.+\)", False),
+        "no exact base is a subclass of the abstract alternative": (r"issubclass\(\w+, \w+\.attr\)", True),
+    }
+    miss = []
+    for what, (pat, pol) in NEED.items():
+        hit = any(any(re.fullmatch(pat, t_) and (pol is None or p_ == pol) for t_, p_ in g_) for g_ in guards)
+        if not hit:
+            miss.append(what)
     if miss:
+        # every rejecting statement must be understood before something is declared missing
+        known_pats = [p_ for p_, _ in NEED.values()] + [r"isinstance\(\w+, .*\)", r".* is None", r"\w+", r".*\.isdisjoint\(.*\)"]
+        unknown = [t_ for g_ in guards for t_, _ in g_ if not any(re.fullmatch(kp, t_) for kp in known_pats)]
+        if unknown:
+            raise AnalysisError(f"{f.fq}: {miss} not found, and the constructor rejects under condition(s) this rule does not understand: {unknown[:2]}")
         r.fail(f.fq, Finding("C09.R1", f.fq, "anyof-disjointness", f"AnyOf.__init__ no longer enforces {miss}: overlapping alternatives make the exact-class dispatch pick the wrong alternative", f.loc))
     else:
         r.ok(f.fq, f"{f.loc} alternatives are checked to be pairwise disjoint (exact bases, one abstract BaseAttr, no subclass overlap)")
